@@ -1,3 +1,3 @@
-import NdnVerif.Driver.Common
--- stub: replaced by the C01 model driver
-def main : IO Unit := IO.println "DONE lines=0 histories=0 diffs=0 specs=0 skipped=0"
+import NdnVerif.C01.FwDriver
+/-! C01 executable: the shared Fw model driver reporting the clauses of C01. -/
+def main : IO Unit := Ndn.Driver.run ({} : Ndn.Fw.Drv.DrvSt) (Ndn.Fw.Drv.stepFw "C01")
